@@ -1,11 +1,14 @@
 ENTRY = dict(
-    runner="C14", pkg="./cmd/c14", corr=["Corr.C14Corr"], n=dict(quick=90, thorough=2000),
+    runner="C14", pkg="./cmd/c14", corr=["Corr.C14Corr"], n=dict(quick=95, thorough=2000),
     rule="real handshakes over loopback TCP: the plain tls.Client entry point, UClient(HelloGolang) and parrots (quick: those two, "
          "Chrome_120, Firefox_120, Chrome_112_PSK_Shuf; thorough adds 12 more parrots) against the Go server of the utls package, which "
          "presents one of 13 generated chains (leaf valid for S+O+P / S only / O only / P only / wrong name / untrusted CA / expired / "
          "not yet valid / outliving its CA; with an intermediate: trusted or untrusted root x intermediate outliving the leaf or "
          "expiring before it) x InsecureServerNameToVerify in {'', other name, '*'} x InsecureSkipTimeVerify x InsecureSkipVerify x "
          "TLS 1.2/1.3 x {no ECH, ECH accepted, ECH rejected with retry configs}; second connections over a shared "
+         "name grid: Config.ServerName that never reaches SNI as configured (trailing dot, IPv4 / IPv6 / bracketed IPv6 literal; leaves "
+         "with matching / other / no IP SAN) and clients without SNI (RemoveSNIExtension on Chrome_120 / Firefox_120, Chrome_120 spec "
+         "without SNIExtension on HelloCustom); "
          "ClientSessionCache after 6 kinds of first connection x 24 second configurations (incl. client clock past the cached "
          "leaf's NotAfter). Every handshake is judged by Go's own x509 verifier called with the options the property text demands "
          "and emitted as a Coq case; per configuration the name/time evidently used is inferred from the passing leaves. Distinct by "
